@@ -344,12 +344,13 @@ func evalCase(d caseDesc) ev.Result {
 		token, nonce = r.Token, n.Items[0].Bytes
 		return r, true
 	}
-	var replay []byte
+	var replay, earlierNonce []byte
 	if a.Kind == "replay-session" {
 		if _, ok := hello(guid[:]); !ok {
 			return ev.Trivial("setup-hello-refused")
 		}
 		replay = proveBody(tok{signer: w.dev.Key, pss: d.Cfg.PSS(), nonce: refcbor.B(nonce), ueid: refcbor.B(append([]byte{1}, guid[:]...))})
+		earlierNonce = append([]byte{}, nonce...)
 	}
 	if a.Kind != "no-hello" {
 		r, ok := hello(helloGUID)
@@ -369,6 +370,9 @@ func evalCase(d caseDesc) ev.Result {
 		}
 		if expired && a.Kind != "hello-guid-mismatch" {
 			return ev.Failf("expired-hello-acked", "%s: HelloRV was acknowledged although the registration expired", tag)
+		}
+		if earlierNonce != nil && bytes.Equal(earlierNonce, nonce) {
+			return ev.Failf("nonce-not-fresh", "%s: the rendezvous server issued the same TO1 nonce %x in two sessions", tag, nonce)
 		}
 	}
 	t := tok{signer: w.dev.Key, pss: d.Cfg.PSS(), nonce: refcbor.B(nonce), ueid: refcbor.B(append([]byte{1}, guid[:]...))}
